@@ -178,6 +178,16 @@ theorem bad_pair_answer (cfg mac resolve now ing h pm raw) (s0 s1 s5 : St)
     · exact Or.inr (Or.inl h1)
     · exact Or.inr (Or.inr h1)
 
+/-- the statements above hold of raw packets: `processPkt` forwards only through `process` -/
+theorem processPkt_forward (cfg mac resolve now ing) (raw : Bytes) (eg : Nat)
+    (hf : (processPkt cfg mac resolve now ing raw).1 = .forward eg) :
+    ∃ h pm, parse raw = .ok h pm ∧ (process cfg mac resolve now ing h pm raw).1 = .forward eg := by
+  unfold processPkt at hf
+  cases hp : parse raw with
+  | drop => simp [hp] at hf
+  | other => simp [hp] at hf
+  | ok h pm => simp only [hp] at hf; exact ⟨h, pm, rfl, hf⟩
+
 /-! ### non-vacuity -/
 
 /-- child → child across a segment change is forwarded -/
